@@ -112,7 +112,7 @@ def rmw_anomalies(case, out):
             del cur[t]
         elif outcome != 'ok': cur[t]['failed'] = True
     for t, op, arg, outcome, lk in out['effective']:
-        if op in ('forupd', 'forupd_u', 'forupd_c', 'qforupd') and outcome == 'ok' and not lk:
+        if op in ('forupd', 'forupd_u', 'forupd_c', 'forupd_r', 'forupd_rt', 'qforupd') and outcome == 'ok' and not lk:
             res.append(('locking-read-without-lock:%s' % op, '%s(%s) returned in thread %d while provider.transaction_lock was not held (%s)' % (op, arg, t, name)))
             break
     rows = out.get('rows_after')
@@ -161,7 +161,9 @@ def runs(ctx, deep=False):
         for name, ops in (('lock-write', [['forupd', False, 1], ['qforupd', False, 2], ['new', False, 5], ['select', False, 0]]),
                           ('read-commit-read', [['select', False, 0], ['commit', False, 0], ['select', False, 0], ['forupd', True, 3], ['rawwrite', False, 1]]),
                           ('routes-cached', [['load', False, 1], ['load', False, 2], ['load', False, 3], ['forupd', False, 1], ['forupd_u', False, 2], ['forupd_c', False, 3],
-                                             ['forupd_u', False, 1], ['forupd_c', False, 4], ['commit', False, 0], ['forupd_u', False, 2]])):
+                                             ['forupd_u', False, 1], ['forupd_c', False, 4], ['commit', False, 0], ['forupd_u', False, 2]]),
+                          ('routes-reverse', [['load', False, 1], ['forupd_r', False, 1], ['forupd_r', False, 1], ['loadw', False, 2], ['forupd_rt', True, 2], ['forupd', False, 2],
+                                              ['forupd_rt', False, 2], ['commit', False, 0], ['forupd_rt', True, 2], ['forupd_r', False, 2]])):
             base.append({'shape': shape, 'start': 'none', 'ops': ops, 'faults': [], 'name': '%s/%s' % (shape, name)})
     o0 = cc.run_driver({'mode': 'sessions', 'cases': base})
     fc = [dict(c, faults=[k]) for c, o in zip(base, o0) if 'harness_error' not in o for k in range(o['sessions'][-1]['calls'])]
@@ -251,7 +253,7 @@ def locking_read_anomalies(c, o):
     """every successful get_for_update / for_update() of a session leaves the lock held (observed right after the operation)"""
     res = []
     for (op, _catch, arg), oc, lk in zip(c['ops'], o['sessions'][0]['outcomes'], o['sessions'][0].get('lock_after_op', [])):
-        if op in ('forupd', 'forupd_u', 'forupd_c', 'qforupd') and oc == 'ok' and not lk:
+        if op in ('forupd', 'forupd_u', 'forupd_c', 'forupd_r', 'forupd_rt', 'qforupd') and oc == 'ok' and not lk:
             res.append(('locking-read-without-lock:%s:%s' % (op, c['shape']), '%s(%s) returned without the provider lock being held (%s session, ops %s, faults %s)' % (op, arg, c['shape'], c['ops'], c['faults'])))
             break
     return res
